@@ -155,7 +155,7 @@ def check_use_sites(r, case, par, text, what):
     names = sorted(par)
     allt = names + ["object"]
     preds = " ".join(f"(p_{t} ?x - {t})" for t in allt)
-    funcs = " ".join(f"(g_{t} ?x - {t})" for t in allt)
+    funcs = " ".join(f"(g_{t} ?x - {t}) (g2_{t} ?c - object ?x - {t})" for t in allt)
     consts = " ".join(f"k_{t} - {t}" for t in allt)
     objs = " ".join(f"o_{t} - {t}" for t in allt)
     actions = "\n".join(
@@ -203,7 +203,8 @@ def check_use_sites(r, case, par, text, what):
         for rho in allt:
             want = sub(tau, rho)
             for kind, init in (("fact", f"(p_{rho} o_{tau})"), ("fluent", f"(= (g_{rho} o_{tau}) 1)"),
-                               ("constant-fact", f"(p_{rho} k_{tau})"), ("constant-fluent", f"(= (g_{rho} k_{tau}) 2)")):
+                               ("constant-fact", f"(p_{rho} k_{tau})"), ("constant-fluent", f"(= (g_{rho} k_{tau}) 2)"),
+                               ("fluent-after-constant", f"(= (g2_{rho} k_{allt[0]} o_{tau}) 3)")):
                 ptxt = f"(define (problem p) (:domain t) (:objects {objs}) (:init {init}) (:goal (and)))"
                 got = guard(parse_problem, ptxt, D)
                 r.count("transitions")
